@@ -323,7 +323,7 @@ func rulesC09(c *Ctx) {
 				}
 			}
 		}
-		c.Need(ctr != nil, "handleSSE: retriesWithoutProgress")
+		c.Must(ctr != nil, "handleSSE:retry-budget-counter", hs, nil, "handleSSE counts consecutive reconnections without progress: without the counter the retry budget is not enforced")
 		nReset, nInc := 0, 0
 		var incV int
 		for _, w := range hs.writesToVar(hs.Body, ctr, false) {
@@ -482,7 +482,7 @@ func ruleStreamNeverSilent(c *Ctx) {
 			}
 		}
 	}
-	c.Need(unresumable >= 0, "processStream: test lastEventID == \"\" && forCall != nil")
+	c.Must(unresumable >= 0, "processStream:unresumable-call-is-failed", ps, nil, "processStream tests `lastEventID == \"\" && forCall != nil` (a call whose stream ended before any event id cannot be resumed and must be failed with a synthetic error); the test is gone")
 	nFalse := 0
 	for i, r := range ps.Returns() {
 		if len(r.Results) != 3 {
